@@ -19,19 +19,26 @@ EXTENDS Integers, Sequences, FiniteSets, TLC, Json, IOUtils
 
 Trace == ndJsonDeserialize(IOEnv.TRACE)
 
-VARIABLES l, bad, calls, ctxEnded, served, result, closeReturned, postClose
-tvars == <<l, bad, calls, ctxEnded, served, result, closeReturned, postClose>>
+VARIABLES l, bad, calls, ctxEnded, served, result, closeReturned, postClose,
+          mdExpected,   \* the scenario configured general and per-node metadata
+          accepted,     \* connection -> node, for the connections whose connect callback has run
+          announced     \* connections the server loop has accepted
+tvars == <<l, bad, calls, ctxEnded, served, result, closeReturned, postClose, mdExpected, accepted, announced>>
 Ev == Trace[l]
 Is(e) == l <= Len(Trace) /\ Trace[l].ev = e
 Step == l' = l + 1 /\ UNCHANGED bad
 
 TInit == l = 1 /\ bad = 0 /\ calls = <<>> /\ ctxEnded = {} /\ served = {} /\ result = <<>>
-         /\ closeReturned = FALSE /\ postClose = {}
+         /\ closeReturned = FALSE /\ postClose = {} /\ mdExpected = FALSE /\ accepted = <<>> /\ announced = {}
 
 TScen == /\ Is("Scen") /\ Step /\ Ev.infeasible = ""
          /\ calls' = <<>> /\ ctxEnded' = {} /\ served' = {} /\ result' = <<>> /\ closeReturned' = FALSE /\ postClose' = {}
+         /\ mdExpected' = FALSE /\ accepted' = <<>> /\ announced' = {}
 
 TwoWayKinds == {"rpc", "qc", "async", "corr", "corrstream"}
+MdSame == UNCHANGED <<mdExpected, accepted, announced>>
+\* C10: the metadata every connection of node n must carry
+MdOf(n) == "v-general=g;v-node=" \o ToString(n)
 
 QuiescentOK ==
   /\ \A t \in ctxEnded : t \in served                                          \* C08
@@ -45,25 +52,43 @@ TNormal ==
   \/ /\ Is("StubCall") /\ Step
      /\ calls' = (Ev.tok :> [probe |-> Ev.probe, kind |-> Ev.kind]) @@ calls
      /\ postClose' = IF closeReturned THEN postClose \cup {Ev.tok} ELSE postClose
-     /\ UNCHANGED <<ctxEnded, served, result, closeReturned>>
+     /\ UNCHANGED <<ctxEnded, served, result, closeReturned>> /\ MdSame
   \/ /\ (Is("CtxEnd") \/ Is("MustServe")) /\ Step /\ ctxEnded' = ctxEnded \cup {Ev.tok}
      \* (MustServe: the connection of a pending call broke: the call has to be completed
      \*  with an error without any help, like a call whose context ended)
-     /\ UNCHANGED <<calls, served, result, closeReturned, postClose>>
+     /\ UNCHANGED <<calls, served, result, closeReturned, postClose>> /\ MdSame
   \/ /\ Is("StubRet") /\ Step /\ ~Ev.panicked
      /\ result' = (Ev.tok :> Ev.tag) @@ result
-     /\ UNCHANGED <<calls, ctxEnded, served, closeReturned, postClose>>
+     /\ UNCHANGED <<calls, ctxEnded, served, closeReturned, postClose>> /\ MdSame
   \* the outcome of a future / correctable is the outcome of the call
   \/ /\ Is("CallServed") /\ Step /\ served' = served \cup {Ev.tok}
      /\ result' = IF Ev.tag # "" THEN (Ev.tok :> Ev.tag) @@ result ELSE result
-     /\ UNCHANGED <<calls, ctxEnded, closeReturned, postClose>>
-  \/ /\ Is("CloseCall") /\ Step /\ UNCHANGED <<calls, ctxEnded, served, result, closeReturned, postClose>>
+     /\ UNCHANGED <<calls, ctxEnded, closeReturned, postClose>> /\ MdSame
+  \/ /\ Is("CloseCall") /\ Step /\ UNCHANGED <<calls, ctxEnded, served, result, closeReturned, postClose>> /\ MdSame
   \/ /\ Is("CloseReturned") /\ Step /\ ~Ev.panicked /\ closeReturned' = TRUE
-     /\ UNCHANGED <<calls, ctxEnded, served, result, postClose>>
+     /\ UNCHANGED <<calls, ctxEnded, served, result, postClose>> /\ MdSame
   \/ /\ (Is("SenderExit") \/ Is("ReceiverExit")) /\ Step
-     /\ UNCHANGED <<calls, ctxEnded, served, result, closeReturned, postClose>>
+     /\ UNCHANGED <<calls, ctxEnded, served, result, closeReturned, postClose>> /\ MdSame
   \/ /\ Is("Quiescent") /\ Step /\ QuiescentOK
-     /\ UNCHANGED <<calls, ctxEnded, served, result, closeReturned, postClose>>
+     /\ UNCHANGED <<calls, ctxEnded, served, result, closeReturned, postClose>> /\ MdSame
+  \* C10: metadata and connect callback, once per connection
+  \/ /\ Is("MetadataExpected") /\ Step /\ mdExpected' = TRUE
+     /\ UNCHANGED <<calls, ctxEnded, served, result, closeReturned, postClose, accepted, announced>>
+  \/ /\ Is("HAccept") /\ Step                 \* the server's connect callback runs
+     /\ Ev.conn \notin DOMAIN accepted       \* once per connection
+     /\ mdExpected => Ev.md = MdOf(Ev.node)
+     /\ accepted' = (Ev.conn :> Ev.node) @@ accepted
+     /\ UNCHANGED <<calls, ctxEnded, served, result, closeReturned, postClose, mdExpected, announced>>
+  \/ /\ Is("SrvAccept") /\ Step              \* the server loop goes on after the callback
+     /\ Ev.conn \in DOMAIN accepted /\ Ev.conn \notin announced
+     /\ announced' = announced \cup {Ev.conn}
+     /\ UNCHANGED <<calls, ctxEnded, served, result, closeReturned, postClose, mdExpected, accepted>>
+  \* at the end of the metadata scenario both nodes have been connected at least
+  \* twice in total (initial connection of node 1, its reconnection, node 2's first)
+  \/ /\ Is("MetadataDone") /\ Step
+     /\ Cardinality({c \in DOMAIN accepted : accepted[c] = 1}) >= 2
+     /\ Cardinality({c \in DOMAIN accepted : accepted[c] = 2}) >= 1
+     /\ UNCHANGED <<calls, ctxEnded, served, result, closeReturned, postClose>> /\ MdSame
   \* ProcessDied matches nothing
 
 NextScen(i) ==
@@ -72,7 +97,7 @@ NextScen(i) ==
 TBad == /\ l <= Len(Trace) /\ ~(Is("Scen") /\ Ev.infeasible = "") /\ ~ENABLED TNormal
         /\ PrintT(<<"BAD", l, Ev.t, Ev.ev>>)
         /\ l' = NextScen(l) /\ bad' = bad + 1
-        /\ UNCHANGED <<calls, ctxEnded, served, result, closeReturned, postClose>>
+        /\ UNCHANGED <<calls, ctxEnded, served, result, closeReturned, postClose>> /\ MdSame
 
 TNext == TScen \/ TNormal \/ TBad
 TSpec == TInit /\ [][TNext]_tvars
